@@ -65,6 +65,7 @@ class VThread:
         "last_k",
         "stopped",
         "xproc",
+        "nondaemon",
     )
 
     def __repr__(self) -> str:
@@ -174,6 +175,7 @@ class World:
         t.last_k = -1
         t.stopped = False
         t.xproc = True
+        t.nondaemon = False
         t.g = greenlet.greenlet(lambda: self._thread_main(t, fn, args), parent=self.root)
         self.threads.append(t)
         proc.threads.append(t)
@@ -203,7 +205,14 @@ class World:
             t.state = DONE
             t.pred = None
             t.deadline = None
-        if t.is_main and t.proc.alive and not self.teardown:
+        if not self.teardown and t.proc.alive and (t.is_main or getattr(t, "nondaemon", False)):
+            if t.is_main:
+                t.proc.main_done = True
+                t.proc.main_exc = t.exc
+            # the interpreter waits for non-daemon threads before it exits
+            if not getattr(t.proc, "main_done", False) or any(getattr(x, "nondaemon", False) and x.state != DONE for x in t.proc.threads):
+                return
+            t = t.proc.main if t.proc.main is not None else t
             code = 0
             if t.exc is not None and not (
                 isinstance(t.exc, SystemExit) and not t.exc.code
@@ -930,6 +939,13 @@ def VExecModel(world: World, proc: VProc, backend: str = "thread"):
                 w = self.world
                 w.point("start")
                 w.spawn(func, args, proc=self.proc, name=getattr(func, "__name__", "t"))
+
+            def start_nondaemon(self, func, args=()) -> None:
+                """harness-only: what threading.Thread(target=...).start() is for remote code"""
+                w = self.world
+                w.point("start")
+                t = w.spawn(func, args, proc=self.proc, name="nondaemon-" + getattr(func, "__name__", "t"))
+                t.nondaemon = True
 
             def get_ident(self) -> int:
                 me = self.world.cur
